@@ -98,6 +98,29 @@ func (p *Program) verifyLemma(lm *Lemma, opts verifyOpts) (out []*OblResult) {
 		}
 		assumes = append(assumes, Implies(guard, x.lemmaInstance(lm, ihArgs, qn)))
 	}
+	if len(lm.IHs) > 0 {
+		if lm.Measure == nil {
+			panic(cevalErr{"ih clauses need a decreases clause"})
+		}
+		m := env.evalInt(lm.Measure)
+		for _, ih := range lm.IHs {
+			if len(ih.Args) != len(lm.Params) {
+				panic(cevalErr{"ih: wrong number of arguments"})
+			}
+			ihArgs := make([]SV, len(ih.Args))
+			menv := &CEnv{x: x, vars: map[string]SV{}, qn: qn}
+			for i, a := range ih.Args {
+				ihArgs[i] = env.eval(a)
+				if isSeqType(lm.Params[i].Type) {
+					ihArgs[i] = env.resolveSeq(ihArgs[i])
+				}
+				menv.vars[lm.Params[i].Name] = ihArgs[i]
+			}
+			m2 := menv.evalInt(lm.Measure)
+			// well-founded: the hypothesis is available only at a strictly smaller, non-negative measure
+			assumes = append(assumes, Implies(And(Le(IntC(0), m2), Lt(m2, m)), x.lemmaInstance(lm, ihArgs, qn)))
+		}
+	}
 	for _, u := range lm.Uses {
 		assumes = append(assumes, env.evalBool(u))
 	}
